@@ -1188,4 +1188,19 @@ theorem getLend_setLend {ls : List Lend} {l l' : Lend} (hg : getLend ls l.id = s
 
 theorem getLend_delLend (ls : List Lend) (k : Nat) : getLend (delLend ls k) k = none := find_del lid ls k
 
+/-! ## Where the interest a borrower pays goes -/
+
+/-- whole tokens of interest = whole tokens of reserve share + whole tokens of lender share + at most one token of dust -/
+theorem interest_split (interest reserve : Int) (hr : 0 ≤ reserve) (hle : reserve ≤ interest) :
+    ∃ dust, 0 ≤ dust ∧ dust ≤ 1 ∧
+      Dec.truncateInt interest = Dec.truncateInt reserve + Dec.truncateInt (interest - reserve) + dust := by
+  unfold Dec.truncateInt
+  rw [Int.tdiv_eq_ediv_of_nonneg (by omega : 0 ≤ interest), Int.tdiv_eq_ediv_of_nonneg hr,
+    Int.tdiv_eq_ediv_of_nonneg (by omega : 0 ≤ interest - reserve)]
+  refine ⟨interest / Dec.P - reserve / Dec.P - (interest - reserve) / Dec.P, ?_, ?_, by omega⟩ <;> simp only [Dec.P] <;> omega
+
+theorem truncateInt_ofInt (k : Int) : Dec.truncateInt (Dec.ofInt k) = k := by
+  unfold Dec.truncateInt Dec.ofInt
+  exact Int.mul_tdiv_cancel k (by decide)
+
 end Comdex.Lend
